@@ -41,6 +41,17 @@ CLAIMS = {
             "outer and inner dispatchers alike; inner dispatches only inside the batch's window (InvC07); Exec.tla with a batch explores all interleavings "
             "of outer systems with inner dispatches. KF1 (thread-local inside a batch) is a listed known finding.",
             EXE + " (InvC07, InvC01s, InvC01x, InvC02x, InvC03x, InvC04x) on batch-heavy programs", "DESIGN.md §5 C07"),
+    "C08": ("World borrows: World.tla (one action per public call with its outcome: unit/none/some/guard/panic(type|absent|borrow)), explored exhaustively "
+            "for 2 types x 2 dynamic ids, <= 3 live guards, histories up to 5-6 calls, state predicate P_C08 and outcome rule R_C08 on every transition; every "
+            "emitted history is replayed on the real World with the outcome and the probed state of every cell compared after every call; long random real "
+            "histories (incl. by-id calls with mismatching types, clone, unwinding, system_data, exec, meta iterators) and multi-thread histories (2-8 threads, "
+            "call/return logging, canaries) are validated by WorldTrace, the latter for linearizability (powerset of explaining configurations); WorldCell.tla "
+            "models atomic_refcell's counter protocol to justify the single linearisation point.",
+            "TLC model checking of World.tla/WorldCell.tla + histories replayed on the real World + WorldTrace validation incl. linearizability (InvC08)", "DESIGN.md §5 C08"),
+    "C09": ("World as typed map: same model and harness as C08 with predicate P_C09 / rule R_C09 (stored type = key type, insert replaces, remove returns the "
+            "stored value, entry never overwrites, presence queries agree, dynamic ids independent, mismatching type argument => panic and unchanged, every value "
+            "dropped exactly once via drop counters), observed through get_mut_raw(id).type_id(), payloads and per-ident drop counts after every call.",
+            "TLC model checking of World.tla + histories replayed on the real World + WorldTrace validation (InvC09)", "DESIGN.md §5 C09"),
     "C10": ("TLC checks InvC10 (+corollary) on the implementation-shaped planner model for every registration sequence within the constants; every "
             "terminal state is replayed on the real DispatcherBuilder (layout of the executed list must equal the model's, else the real trace is judged "
             "by the same predicate), random large registration traces are validated with C10At after every registration; max_threads = widest stage.",
